@@ -38,7 +38,8 @@ __CPROVER_ensures(__CPROVER_return_value == 0 || __CPROVER_return_value == -EEAV
 __CPROVER_ensures((__CPROVER_return_value == -EEAV_LPART_EMPTY) == (g_len == 0))
 __CPROVER_ensures(__CPROVER_return_value == -EEAV_LPART_NOT_ASCII ==> g_cur > 127)
 __CPROVER_ensures(__CPROVER_return_value == -EEAV_LPART_CTRL_CHAR ==> (g_cur >= 0 && (g_cur < 32 || g_cur == 127)))
-__CPROVER_ensures(__CPROVER_return_value == -EEAV_LPART_TOO_MANY_DOTS ==> (g_cur == '.' && g_la == '.'))
+/* a leading dot is 'misplaced dot' in every mode, also when another dot follows: the two dot codes are told apart by position */
+__CPROVER_ensures(__CPROVER_return_value == -EEAV_LPART_TOO_MANY_DOTS ==> (g_cur == '.' && g_la == '.' && g_pos >= 2))
 __CPROVER_ensures(__CPROVER_return_value == -EEAV_LPART_MISPLACED_DOT ==> (g_cur == '.' && (g_pos == 1 || g_pos == g_len)))
 __CPROVER_ensures(__CPROVER_return_value == -EEAV_LPART_SPECIAL ==> ((L_IS_SPECIAL(g_cur) && g_cur != '"' && g_cur != '.') || g_cur == ' '))
 /* C12/C15: the codes are pinned by disjoint conditions on the offending byte, so on inputs without DQUOTE and backslash all modes report the same code */
